@@ -39,7 +39,7 @@ for prop in args:
         meta = {
             "id": sid,
             "property": prop,
-            "source": "independent sub-agent given only the property text and a scratch worktree of /repo at commit b519431",
+            "source": "independent sub-agent given only the property text and a scratch worktree of /repo at commit %s" % subprocess.run(["git", "rev-parse", "--short", "HEAD"], cwd=wt, stdout=subprocess.PIPE, text=True).stdout.strip(),
             "files_changed": [files[i] for i in range(2, len(files), 3)],
             "needs_to_manifest": "see notes.md (author's description)",
             "confirmed_by_me": {
